@@ -5,7 +5,7 @@ use std::borrow::Cow;
 use winnow::{
     ascii::{line_ending, space0, space1, till_line_ending},
     combinator::{
-        alt, delimited, dispatch, opt, peek, preceded, repeat, separated, terminated, trace,
+        alt, delimited, dispatch, empty, opt, peek, preceded, repeat, separated, terminated, trace,
     },
     error::ParserError,
     stream::{AsChar, Stream, StreamIsPartial},
@@ -51,8 +51,10 @@ where
     // For now, we can't go with regular repeat because it's hard to have a initial value in Accumulate.
     trace(
         "metadata::block_metadata",
-        dispatch! {peek(any);
-            ';' => separated(1.., line_metadata, space1),
+        dispatch! {peek(opt(any));
+            Some(';') => separated(1.., line_metadata, space1),
+            // the last line of the input may be terminated by EOF instead of line_ending.
+            None => empty.map(|()| Vec::new()),
             _ => preceded(line_ending, repeat(0.., preceded(space1, line_metadata))),
         },
     )
